@@ -562,7 +562,7 @@ impl<'p> Interp<'p> {
 
     pub fn native_arity(name: &str) -> Option<usize> {
         Some(match name {
-            "log" | "id" | "call0" | "mk_str" => 1,
+            "log" | "id" | "call0" | "mk_str" | "slen" => 1,
             "log2" | "call1" => 2,
             "log3" => 3,
             "fail" => 0,
@@ -594,6 +594,11 @@ impl<'p> Interp<'p> {
                 Ok(RV::str(&"x".repeat(n)))
             }
             "fail" => Err(ErrKind::TaskFailure("fail".into(), Box::new(ErrKind::InvalidArgument))),
+            // a native with a `&str` parameter: anything but a string is rejected by the conversion
+            "slen" => match &args[0] {
+                RV::Str(s) => Ok(RV::Int(s.len() as i64)),
+                _ => Err(ErrKind::TaskFailure("slen".into(), Box::new(ErrKind::InvalidArgument))),
+            },
             "call0" | "call1" => {
                 self.stats.native_reentries += 1;
                 let f = args[0].clone();
